@@ -8,9 +8,11 @@ void Set(void* new_value, std::uint64_t i);
 
 void SetDefault(void* new_value, std::uint64_t i);
 
+// one counter for all instantiations: thread-local pointers of different types must not share a slot
+inline std::uint64_t sNextFreeIndex = 0;
+
 template <typename Type>
 class ThreadLocalPtrProxy final {
-  inline static std::uint64_t sNextFreeIndex = 0;
 
  public:
   ThreadLocalPtrProxy() noexcept : _i(sNextFreeIndex++) {
